@@ -162,3 +162,15 @@ Example C04_ex_rollback_activate : kv_step N.eqb false st0 (KSetActive [97] 2) =
 Proof. vm_compute. reflexivity. Qed.
 Example C04_ex_rollback_delete : kv_step N.eqb false st0 (KDel [98]) = (st0, KSaveErr, SaveFailed).
 Proof. vm_compute. reflexivity. Qed.
+
+(* ---------- the end-to-end chain ----------
+   The composition of the server-side models (DB/KV - Persist - Crypto - FS; statements in
+   Props/Chain_Server.v, proofs in Server/EndToEndProofs.v) is built and its assumptions are
+   checked with every C04 run. *)
+From Setec Require Props.Chain_Server.
+Print Assumptions Chain_Server.Chain_outcome.
+Print Assumptions Chain_Server.Chain_crash.
+Print Assumptions Chain_Server.Chain_history.
+Print Assumptions Chain_Server.Chain_call_is_spec_step.
+Print Assumptions Chain_Server.Chain_secrecy.
+Print Assumptions Chain_Server.Chain_seen_complete.
